@@ -619,6 +619,19 @@ func runC01(c *ctx, r *Report) error {
 			r.finding("hang:"+name, "child process did not finish within 60 s", Case{Op: "lint-child", Input: map[string]string{"case": name, "size": fmt.Sprint(len(src))}})
 		}
 	}
+	// part (5): the CRON check (rule_events.go checkCron = guard + robfig/cron's Parser.Parse + SpecSchedule.Next + the
+	// 5-minute rule) against its model AL.Cron: generated specs (valid by construction, malformed, time-zone prefixes with and
+	// without a blank, Unicode blanks, non-ASCII) through Parser.Parse alone under recover (a panic is an outcome the model
+	// predicts: exactly the specs the guard stops), through the statements of checkCron and through the whole linter
+	nCron := 4000
+	if !c.quick {
+		nCron = 90000
+	}
+	cb := &batch{}
+	cronStandard(c, r, cb, rand.New(rand.NewSource(c.seed*7919+101)), nCron)
+	if _, err := cb.flush(c, r); err != nil {
+		return err
+	}
 	r.sample(map[string]string{"channel": "workflow", "mutation": "jobs.build.timeout-minutes ← !!float \"nan\""})
 	r.sample(map[string]string{"channel": "config", "mutation": "paths ← !!seq"})
 	return nil
